@@ -16,8 +16,8 @@ ASSUMPTIONS = [
     "interface-level view: the endpoint alone; the transaction packet generator behind handshakes_out is represented by its "
     "interface contract (ready exactly while idle, a request is taken only while ready, ERDY before NRDY, done pulses while busy), "
     "which is what C45 proves about TransactionPacketGenerator; ep_reset is held 0 (endpoint reset is not part of the property)",
-    "max_packet_size is a multiple of 4 with 8 <= max_packet_size <= 1024 (the module computes in 32-bit words; at 4 the buffer "
-    "has a single word)",
+    "max_packet_size is a multiple of 4 with 4 <= max_packet_size <= 1024 (the module computes in 32-bit words and tx_length is "
+    "Signal(range(1025)))",
     "stream producer contract: valid masks 0001/0011/0111 only together with last (SuperSpeedStreamInterface words are full "
     "except at the end of a transfer); a word counts as accepted in a cycle with valid != 0 and ready = 1",
     "host contract (burst size 1, USB 3.2 8.10-8.12): an ACK TP for this endpoint arrives only when no IN request of the host is "
@@ -98,7 +98,7 @@ def mk_tp(mps):
 
 # R configurations: (sb = SEQUENCE_NUMBER_BITS, alphabet profile of SsIn.ss_alpha)
 R_QUICK = [(1, 3)]
-R_THOROUGH = [(1, 3), (2, 3), (2, 1)]
+R_THOROUGH = [(1, 3), (2, 3), (1, 1)]
 PROFILE_TEXT = {
     3: "control profile: stream words with masks 1111 / 1111+last / 0011+last (payload 0), host: IN request, ACK with "
        "NumP 0 and 1, retry by flag and by repeated sequence number, ACK TPs for another endpoint, tx.ready both ways "
@@ -115,8 +115,8 @@ def r_configs(tier):
 def targets(tier):
     sbs = sorted({sb for sb, _ in r_configs(tier)})
     ts = [mk(8, sb, "R") for sb in sbs]
-    sizes = [12, 1024] if tier == "quick" else [8, 12, 16, 20, 64, 512, 1024]
-    tps = [mk_tp(16)] if tier == "quick" else [mk_tp(8), mk_tp(16), mk_tp(1024)]
+    sizes = [12, 1024] if tier == "quick" else [4, 8, 12, 16, 64, 1024]
+    tps = [mk_tp(16)] if tier == "quick" else [mk_tp(8), mk_tp(1024)]
     return ts + [mk(m) for m in sizes] + tps
 
 
@@ -284,7 +284,7 @@ def traces(target, rng, tier):
     mps = target.params["mps"]
     s = Script(target)
     big = mps >= 256
-    n = (2 if big else 14) if tier == "quick" else (12 if big else 84)
+    n = (2 if big else 14) if tier == "quick" else (5 if big else 42)
     out = []
     for k in range(n):
         style = k % 7
@@ -424,15 +424,19 @@ LEVEL_TEXT = ("Machine-checked proof about a model of the endpoint, tied to the 
               "exactly once after an NRDY, as soon as a packet is held; every IN request is answered at once (ZLP, NRDY) or by a data "
               "packet two cycles later; the expected sequence number advances only with the host's acknowledgement, a retry re-requests "
               "the same packet, an acknowledgement removes exactly that packet from the pending stream. "
-              "(1) C46_endpoint_meets_spec: for every max_packet_size (multiple of 4, 8..1024), endpoint number, sequence-number width and "
+              "(1) C46_endpoint_meets_spec: for every max_packet_size (multiple of 4, 4..1024), endpoint number, sequence-number width and "
               "EVERY input history the referee accepts the model's interface trace up to the first cycle (if any) in which the environment "
               "(stream producer / host / generator contract, see assumptions) is broken -- invariant proof over the product of model and "
               "referee, unbounded in trace length; C46_endpoint_meets_spec_io restates it on packed interface words. "
               "(2) For max_packet_size 8 the netlist regenerated from /repo is proved equal to the model, all outputs, on every trace over "
               "the state-dependent tie alphabets (certified product reachability), hence accepted by the referee "
-              "(C46_netlist_m8_s*_p*_meets_spec). (3) At max_packet_size 12 / 1024 (thorough: 8, 12, 16, 20, 64, 512, 1024) model and "
+              "(C46_netlist_m8_s*_p*_meets_spec). (3) At max_packet_size 12 / 1024 (thorough: 4, 8, 12, 16, 64, 1024) model and "
               "simulator of the real module are compared on scripted sessions with random 32-bit data (correspondence, not a proof), and "
-              "the referee is evaluated over the simulator traces (runtime oracle).")
+              "the referee is evaluated over the simulator traces (runtime oracle); the same for the endpoint wired to the real "
+              "TransactionPacketGenerator (max_packet_size 16; thorough 8, 1024), where the generator contract is checked instead of assumed. "
+              "(4) C46_exactly_once_in_order (about the referee alone, any endpoint): along every trace the referee judges and accepts, the "
+              "bytes accepted from the stream = the bytes of the acknowledged packets in order ++ the bytes still pending, and no "
+              "acknowledged packet exceeds max_packet_size.")
 LEVEL_NOTE = ("The unchanged tree VIOLATES the property: ./check C46 exits 1 on /repo and 0 with findings/C46-stream-in.diff applied "
               "(LUNA_REPO copy; the 93 baseline tests pass with it). The model is the corrected behaviour. Defects of "
               "SuperSpeedStreamInEndpoint confirmed on the simulator (replays under findings/): sequence number not advanced when the ACK "
